@@ -279,7 +279,7 @@ func runC02(r *Run) {
 // addressLists: MemoryRead / MemoryWrite of one opcode return exactly the byte
 // addresses of the RV32IM row (the addresses the variants probe, lock and route on).
 func addressLists(r *Run, rule, c string, op *opcodeInfo, sp *rvSpec) {
-		// R02.4 — MemoryRead / MemoryWrite
+	// R02.4 — MemoryRead / MemoryWrite
 	for _, m := range []string{"MemoryRead", "MemoryWrite"} {
 		want := sp.memRead
 		if m == "MemoryWrite" {
